@@ -1,5 +1,6 @@
 import NrDaemon.Model.Proc
 import NrDaemon.Lemmas.Proc
+import NrDaemon.Lemmas.Lifecycle
 /-!
   C12, clause "a category whose limit is zero is never sent", at the level of the processor model (both harvest paths).
   Lemmas about the requests a harvest makes (used by `Props/C12.lean` and `Props/C04.lean`).
@@ -257,3 +258,99 @@ theorem harvestByType_from (s : PState) (runId : String) (run : RunM) (app : App
     refine evStep_from _ _ _ _ _ (ReqFrom a) ?_ (hP _)
     refine evStep_from _ _ _ _ _ (ReqFrom a) ?_ (hP _)
     intro r hr; simp at hr
+
+/-! ### what a harvest leaves behind: the containers it sent are detached (used by C01) -/
+
+/-- after the combined harvest the run holds a completely fresh harvest: nothing that was handed to a request stays
+behind, so nothing can be sent a second time from the live harvest -/
+theorem harvestAllPart_installs_fresh (s : PState) (runId : String) (run : RunM) (app : AppM) (cfg : RunCfg) (a : HArgs) :
+    getRun (harvestAllPart s runId run app cfg a).1 runId = some { run with h := HarvestM.new cfg } := by
+  unfold harvestAllPart
+  simp only []
+  unfold getRun
+  simp only []
+  rw [(considerMany_frame _ _ _).2]
+  exact getRun_setRun_same _ runId _
+
+/-- the per-category path: each branch that sends a container installs a fresh one in the same step -/
+theorem evStep_h (acc : HAcc) (a : HArgs) (on : Bool) (pl : List (Cat × Payload)) (upd : HarvestM → HarvestM) :
+    (evStep acc a on pl upd).h = if on then upd acc.h else acc.h := by
+  unfold evStep
+  cases on <;> rfl
+
+theorem finishTypes_run (acc : HAcc) (runId : String) (run : RunM) (app' : AppM) (gid : Nat) (a : HArgs) :
+    getRun (finishTypes acc runId run app' gid a).1 runId = some { run with h := acc.h } := by
+  unfold finishTypes
+  simp only []
+  split
+  · exact getRun_setRun_same _ runId _
+  · exact getRun_setRun_same _ runId _
+
+theorem evStep_custom_keep (acc : HAcc) (a : HArgs) (on : Bool) (pl : List (Cat × Payload)) (upd : HarvestM → HarvestM)
+    (hk : ∀ h, (upd h).custom = h.custom) : (evStep acc a on pl upd).h.custom = acc.h.custom := by
+  rw [evStep_h]; cases on <;> simp [hk]
+
+theorem evStep_custom_set (acc : HAcc) (a : HArgs) (on : Bool) (pl : List (Cat × Payload)) (upd : HarvestM → HarvestM) (r : Res)
+    (hs : ∀ h, (upd h).custom = r) : (evStep acc a on pl upd).h.custom = if on then r else acc.h.custom := by
+  rw [evStep_h]; cases on <;> simp [hs]
+
+theorem evStep_errEv_keep (acc : HAcc) (a : HArgs) (on : Bool) (pl : List (Cat × Payload)) (upd : HarvestM → HarvestM)
+    (hk : ∀ h, (upd h).errEv = h.errEv) : (evStep acc a on pl upd).h.errEv = acc.h.errEv := by
+  rw [evStep_h]; cases on <;> simp [hk]
+
+theorem evStep_errEv_set (acc : HAcc) (a : HArgs) (on : Bool) (pl : List (Cat × Payload)) (upd : HarvestM → HarvestM) (r : Res)
+    (hs : ∀ h, (upd h).errEv = r) : (evStep acc a on pl upd).h.errEv = if on then r else acc.h.errEv := by
+  rw [evStep_h]; cases on <;> simp [hs]
+
+theorem evStep_txn_keep (acc : HAcc) (a : HArgs) (on : Bool) (pl : List (Cat × Payload)) (upd : HarvestM → HarvestM)
+    (hk : ∀ h, (upd h).txn = h.txn) : (evStep acc a on pl upd).h.txn = acc.h.txn := by
+  rw [evStep_h]; cases on <;> simp [hk]
+
+theorem evStep_txn_set (acc : HAcc) (a : HArgs) (on : Bool) (pl : List (Cat × Payload)) (upd : HarvestM → HarvestM) (r : Res)
+    (hs : ∀ h, (upd h).txn = r) : (evStep acc a on pl upd).h.txn = if on then r else acc.h.txn := by
+  rw [evStep_h]; cases on <;> simp [hs]
+
+theorem evStep_span_keep (acc : HAcc) (a : HArgs) (on : Bool) (pl : List (Cat × Payload)) (upd : HarvestM → HarvestM)
+    (hk : ∀ h, (upd h).span = h.span) : (evStep acc a on pl upd).h.span = acc.h.span := by
+  rw [evStep_h]; cases on <;> simp [hk]
+
+theorem evStep_span_set (acc : HAcc) (a : HArgs) (on : Bool) (pl : List (Cat × Payload)) (upd : HarvestM → HarvestM) (r : Res)
+    (hs : ∀ h, (upd h).span = r) : (evStep acc a on pl upd).h.span = if on then r else acc.h.span := by
+  rw [evStep_h]; cases on <;> simp [hs]
+
+theorem evStep_log_keep (acc : HAcc) (a : HArgs) (on : Bool) (pl : List (Cat × Payload)) (upd : HarvestM → HarvestM)
+    (hk : ∀ h, (upd h).log = h.log) : (evStep acc a on pl upd).h.log = acc.h.log := by
+  rw [evStep_h]; cases on <;> simp [hk]
+
+theorem evStep_log_set (acc : HAcc) (a : HArgs) (on : Bool) (pl : List (Cat × Payload)) (upd : HarvestM → HarvestM) (r : Res)
+    (hs : ∀ h, (upd h).log = r) : (evStep acc a on pl upd).h.log = if on then r else acc.h.log := by
+  rw [evStep_h]; cases on <;> simp [hs]
+
+/-- the per-category path, category by category: the reservoir of a category that is harvested (its bit is set and its
+limit is not zero) is replaced by a fresh one of the negotiated capacity in the same step; the others are left alone -/
+theorem harvestTypesPart_reservoirs (s : PState) (runId : String) (run : RunM) (app : AppM) (cfg : RunCfg) (mask : Nat) (a : HArgs) :
+    ∃ h', getRun (harvestTypesPart s runId run app cfg mask a).1 runId = some { run with h := h' } ∧
+      h'.custom = (if (hasBit mask 32 && cfg.limCustom != 0) then Res.new cfg.limCustom else run.h.custom) ∧
+      h'.errEv = (if (hasBit mask 64 && cfg.limErr != 0) then Res.new cfg.limErr else run.h.errEv) ∧
+      h'.txn = (if (hasBit mask 16 && cfg.limTxn != 0) then Res.new cfg.limTxn else run.h.txn) ∧
+      h'.span = (if (hasBit mask 128 && cfg.limSpan != 0) then Res.new cfg.limSpan else run.h.span) ∧
+      h'.log = (if (hasBit mask 256 && cfg.limLog != 0) then Res.new cfg.limLog else run.h.log) := by
+  unfold harvestTypesPart
+  simp only []
+  refine ⟨_, finishTypes_run _ _ _ _ _ _, ?_, ?_, ?_, ?_, ?_⟩
+  · -- custom: set by the 2nd branch, kept by the 3rd-6th and by the default-data branch
+    rw [evStep_custom_keep, evStep_custom_keep, evStep_custom_keep, evStep_custom_keep,
+        evStep_custom_set (r := Res.new cfg.limCustom), evStep_custom_keep]
+    all_goals (intro _; rfl)
+  · rw [evStep_errEv_keep, evStep_errEv_keep, evStep_errEv_keep,
+        evStep_errEv_set (r := Res.new cfg.limErr), evStep_errEv_keep, evStep_errEv_keep]
+    all_goals (intro _; rfl)
+  · rw [evStep_txn_keep, evStep_txn_keep, evStep_txn_set (r := Res.new cfg.limTxn), evStep_txn_keep,
+        evStep_txn_keep, evStep_txn_keep]
+    all_goals (intro _; rfl)
+  · rw [evStep_span_keep, evStep_span_set (r := Res.new cfg.limSpan), evStep_span_keep, evStep_span_keep,
+        evStep_span_keep, evStep_span_keep]
+    all_goals (intro _; rfl)
+  · rw [evStep_log_set (r := Res.new cfg.limLog), evStep_log_keep, evStep_log_keep, evStep_log_keep,
+        evStep_log_keep, evStep_log_keep]
+    all_goals (intro _; rfl)
